@@ -101,6 +101,15 @@ def mk(spec: Tuple[str, Any, Any]):
         return {"jsonrpc": "2.0", "method": "notifications/bad", "params": {"c": c}}, UNSER
     if shape == "unser_bytes":
         return {"jsonrpc": "2.0", "method": "notifications/bad", "params": {"b": b"\xff"}}, UNSER
+    if shape in ("unser_typed_object", "unser_typed_bytes", "unser_typed_legacy_object"):
+        # a typed message whose payload holds something that has no JSON image at all
+        class Opaque:
+            pass
+        junk = b"\xff\xfe" if shape == "unser_typed_bytes" else Opaque()
+        from chuk_mcp.protocol.messages.json_rpc_message import JSONRPCRequest as _LegacyReq, JSONRPCMessage as _Unified
+        if shape == "unser_typed_legacy_object":
+            return _LegacyReq(id=mid, method="tools/call", params={"x": junk, "ok": 1}), UNSER
+        return _Unified.create_request("tools/call", {"x": junk, "ok": 1}, id=mid), UNSER
     if shape == "unser_deep":
         d: Any = {"leaf": 1}
         for _ in range(6000):
@@ -125,7 +134,7 @@ GOOD_SHAPES = ["typed_request", "typed_request_noparams", "typed_notification", 
                "direct_request", "direct_notification", "direct_response", "direct_error", "direct_legacy", "direct_validate",
                "str_pretty", "str_trailing_newline"]
 BAD_SHAPES = ["unser_object", "unser_set", "unser_circular", "unser_bytes", "surrogate_dict", "unser_surrogate_str",
-              "unser_deep", "unser_badrepr"]
+              "unser_deep", "unser_badrepr", "unser_typed_object", "unser_typed_bytes", "unser_typed_legacy_object"]
 IDS = [1, 0, "a", "123", 2**63, "\u00fc"]
 
 
